@@ -102,6 +102,7 @@ PrimJ(n, k, ptr, o, doc, out) ==
   [name |-> Names[n], shape |-> "prim", kind |-> k, ptr |-> ptr, opts |-> OptsJ(o), inherit |-> FALSE,
    part |-> "", doc |-> DocJ(doc), out |-> out, sub |-> <<>>]
 
+SubVal == [v |-> "sub", text |-> "", ms |-> 0]
 StructJ(outs) == LET s == StructAllowed(outs) IN [err |-> s.err, ok |-> s.ok, any |-> s.any]
 
 CaseJ(family, src, yaml, fields, outs) ==
@@ -237,7 +238,6 @@ NestInit(fam) ==
      /\ inp = [family |-> fam, src |-> "typed", k |-> k1, id |-> id1, doc |-> d1, k2 |-> k2, id2 |-> id2, doc2 |-> d2,
                smode |-> smode, sdoc |-> sdoc]
 
-SubVal == [v |-> "sub", text |-> "", ms |-> 0]
 NestCase(i) ==
   LET o1 == OptFor(i.id, i.k)
       o2 == OptFor(i.id2, i.k2)
@@ -262,6 +262,32 @@ NestCase(i) ==
              out |-> sout, sub |-> <<f2>>]
   IN CaseJ(i.family, "typed", DocYaml(i.doc) /\ DocYaml(i.doc2), <<f1, fs>>, <<a1, sout>>)
 
+\* --------------------------------------------------------------- family: deep
+\* A container of containers of structs: T = struct{ B f2 } with B's key spelt in each way of Names,
+\*   ss  [][]T            document [[{..}]]
+\*   sm  []map[string]T            [{"kx":{..}}]
+\*   ms  map[string][]T            {"kx":[{..}]}
+\*   ssm [][]map[string]T          [[{"kx":{..}}]]
+\*   sp0 []*T                      [null,{..}]
+\* The struct outcome is that of its one T element; conf.Load* must accept the respelt keys of B at
+\* any depth.  sp0: the statement says nothing about null elements; a loader may refuse the
+\* document, or skip the null (nil pointer) and fill the other element exactly.
+DeepShapes == {"ss", "sm", "ms", "ssm", "sp0"}
+DeepInit ==
+  \E shape \in DeepShapes, n \in NameIds, k \in Kinds, id \in OptIds, doc \in DocsOf(LitIdx) :
+     /\ Applicable(id, k)
+     /\ inp = [family |-> "deep", src |-> "typed", shape |-> shape, n |-> n, k |-> k, id |-> id, doc |-> doc]
+
+DeepCase(i) ==
+  LET o == OptFor(i.id, i.k)
+      a == Allowed(i.k, o, i.doc, "typed")
+      inner0 == [err |-> a.err, ok |-> a.ok \/ a.any, any |-> a.any, val |-> SubVal, alt |-> NoVal, why |-> a.why]
+      inner == IF i.shape = "sp0" THEN Weaken(inner0) ELSE inner0
+      fb == PrimJ(i.n, i.k, FALSE, o, i.doc, a)
+      fd == [name |-> Names["a"], shape |-> "deep", kind |-> i.shape, ptr |-> FALSE, opts |-> OptsJ(Plain),
+             inherit |-> FALSE, part |-> "", doc |-> [d |-> "sub"], out |-> inner, sub |-> <<fb>>]
+  IN CaseJ("deep", "typed", DocYaml(i.doc), <<fd>>, <<inner>>)
+
 \* --------------------------------------------------------------- family: roundtrip
 \* one field per request part; the value of each field is named by a literal that fits its kind.
 \* Allowed = the struct comes back equal (error tolerated only for the upper half of uint64).
@@ -282,22 +308,26 @@ RTOut(k, l) ==
   LET v == CASE k \in NumKinds -> NumVal(l, k) [] k = "bool" -> VBool(l.text) [] OTHER -> VStr(l.text)
   IN IF k \in {"uint64", "uint"} /\ HasValue(l) /\ Lt("9223372036854775807", l.at) THEN Either(v) ELSE Must(v)
 
-RTInit ==
+\* family "rtopt": every member is `optional,default=<non-zero>`; the client sends the zero value,
+\* the default or another value.  "Parsed back into an equal struct" does not depend on the options:
+\* a member the client holds at its zero value comes back as zero, not as the default.
+RTOpts(om, k) == IF om = "optdef" THEN Opts(TRUE, DefaultFor(k), {}, NoRange, FALSE, "") ELSE Plain
+RTInit(om) ==
   \E kp \in Kinds, lp \in LitIdx, kf \in Kinds, lf \in LitIdx, kh \in Kinds2, lh \in LitIdx2, kj \in Kinds, lj \in LitIdx :
      /\ RTVal(kp, Lits[lp]) /\ RTVal(kf, Lits[lf]) /\ RTVal(kh, Lits[lh]) /\ RTVal(kj, Lits[lj])
-     /\ RTPartOk("path", kp, Lits[lp])
-     /\ inp = [family |-> "roundtrip", src |-> "typed", kp |-> kp, lp |-> lp, kf |-> kf, lf |-> lf,
+     /\ RTPartOk("path", kp, Lits[lp]) /\ RTPartOk("form", kf, Lits[lf])
+     /\ inp = [family |-> IF om = "optdef" THEN "rtopt" ELSE "roundtrip", om |-> om, src |-> "typed", kp |-> kp, lp |-> lp, kf |-> kf, lf |-> lf,
                kh |-> kh, lh |-> lh, kj |-> kj, lj |-> lj]
 
-RTField(n, part, k, l) ==
-  [PrimJ(n, k, FALSE, Plain, Present(l), RTOut(k, l)) EXCEPT !.part = part]
+RTField(n, part, k, l, om) ==
+  [PrimJ(n, k, FALSE, RTOpts(om, k), Present(l), RTOut(k, l)) EXCEPT !.part = part]
 RTNames == [p |-> "a", f |-> "b", h |-> "s"]
 RTCase(i) ==
-  LET fp == RTField("a", "path", i.kp, Lits[i.lp])
-      ff == RTField("b", "form", i.kf, Lits[i.lf])
-      fh == RTField("s", "header", i.kh, Lits[i.lh])
-      fj == RTField("x", "json", i.kj, Lits[i.lj])
-  IN CaseJ("roundtrip", "typed", TRUE, <<fp, ff, fh, fj>>, <<fp.out, ff.out, fh.out, fj.out>>)
+  LET fp == RTField("a", "path", i.kp, Lits[i.lp], i.om)
+      ff == RTField("b", "form", i.kf, Lits[i.lf], i.om)
+      fh == RTField("s", "header", i.kh, Lits[i.lh], i.om)
+      fj == RTField("x", "json", i.kj, Lits[i.lj], i.om)
+  IN CaseJ(i.family, "typed", TRUE, <<fp, ff, fh, fj>>, <<fp.out, ff.out, fh.out, fj.out>>)
 
 \* --------------------------------------------------------------- family: axioms
 \* The numeric facts this specification takes as given (TLC cannot compute with 64-bit values):
@@ -314,7 +344,9 @@ Init ==
     [] Family \in {"pair", "embedded"} -> PairInit(Family)
     [] Family \in {"slice", "map"} -> ContInit(Family)
     [] Family \in {"nested", "inherit"} -> NestInit(Family)
-    [] Family = "roundtrip" -> RTInit
+    [] Family = "roundtrip" -> RTInit("req")
+    [] Family = "rtopt" -> RTInit("optdef")
+    [] Family = "deep" -> DeepInit
     [] Family = "axioms" -> inp = [family |-> "axioms"]
     [] Family = "twice" -> TwiceInit
     [] Family = "history" -> HistInit
@@ -327,7 +359,8 @@ CaseOf(i) ==
     [] i.family \in {"pair", "embedded"} -> PairCase(i)
     [] i.family \in {"slice", "map"} -> ContCase(i)
     [] i.family \in {"nested", "inherit"} -> NestCase(i)
-    [] i.family = "roundtrip" -> RTCase(i)
+    [] i.family \in {"roundtrip", "rtopt"} -> RTCase(i)
+    [] i.family = "deep" -> DeepCase(i)
     [] i.family = "axioms" -> AxiomsCase
     [] i.family = "twice" -> ContCase(i)
     [] i.family = "history" -> HistCase(i)
@@ -348,7 +381,7 @@ SaneField(k, o, doc, src) ==
 
 Sane ==
   /\ T_PointsOrdered
-  /\ inp.family \in {"single", "pair", "embedded", "nested", "inherit", "history"} =>
+  /\ inp.family \in {"single", "pair", "embedded", "nested", "inherit", "history", "deep"} =>
         SaneField(inp.k, OptFor(inp.id, inp.k), inp.doc, inp.src)
   /\ inp.family \in {"pair", "embedded", "nested"} =>
         SaneField(inp.k2, OptFor(inp.id2, inp.k2), inp.doc2, inp.src)
@@ -361,7 +394,7 @@ Sane ==
            /\ (s.mustErr => ~s.ok /\ ~s.any /\ s.err)
            /\ (s.err \/ s.ok \/ s.any)
   \* a round trip never needs a wrapped value: every generated request value fits its field
-  /\ inp.family = "roundtrip" =>
+  /\ inp.family \in {"roundtrip", "rtopt"} =>
         /\ Fits(Lits[inp.lp], inp.kp) /\ Fits(Lits[inp.lf], inp.kf)
         /\ Fits(Lits[inp.lh], inp.kh) /\ Fits(Lits[inp.lj], inp.kj)
 
